@@ -48,7 +48,7 @@ CHECKS.update({
 CHECKS.update({
     'C05': dict(
         technique='byte-copy audit of the f32 codec + key discipline + must-pass-through write rule + truncation (sibling) rule + effect table over the build call graph',
-        text='No float arithmetic and one endianness class in the f32 codec; every item API addresses Key::item(self.index, item); every success return of add/append follows the item put; every vector decoded from a stored leaf and returned or re-encoded is truncated to the declared dimension; iterators scan exactly the item prefix pairing id and vector of the same entry; clear removes every key; nothing reachable from the build writes an item key except the header-only preprocess rewrite; metadata.items is the live item scan; every success path of a build publishes the metadata (R-PUBLISH); the quantised codec clauses of C12 (packer, iterator) are re-evaluated because the item store goes through them. Stored leaf = caller vector with its own header in both entry points (R-LEAF).',
+        text='No float arithmetic and one endianness class in the f32 codec; every item API addresses Key::item(self.index, item); every success return of add/append follows the item put; every vector decoded from a stored leaf and returned or re-encoded is truncated to the declared dimension; iterators scan exactly the item prefix pairing id and vector of the same entry; del_item returns the answer of its own delete on each side (R-DEL); clear removes every key; nothing reachable from the build writes an item key except the header-only preprocess rewrite; metadata.items is the live item scan; every success path of a build publishes the metadata (R-PUBLISH); the quantised codec clauses of C12 (packer, iterator) are re-evaluated because the item store goes through them. Stored leaf = caller vector with its own header in both entry points (R-LEAF).',
         design='DESIGN.md §4 C05',
         note='NOT decided: heed/LMDB get/put fidelity; bit-exactness beyond "no arithmetic between API and store".'),
     'C13': dict(
